@@ -1061,7 +1061,7 @@ def compare_model(ctx, cases, inputs, outs, observations):
 def run(ctx):
     common.proof_obligations(ctx, whitelist=WHITELIST)
     cases = gen_cases(ctx)
-    long_sizes = [(2 ** 20 + 1, 1, 7), (2 ** 20 + 7, 2, 5)]
+    long_sizes = [(2 ** 20 + 1, 1, 7), (2 ** 20 + 7, 2, 5), (65536, 2, 7), (70001, 1, 9)]
     if ctx.thorough():
         long_sizes += [(2 ** 20 - 1, 1, 7), (2 ** 20, 1, 7), (2 ** 20 + 1, 2, 11), (2 ** 21 + 3, 1, 7), (2 ** 22, 1, 9),
                        (2 ** 20 + 2, 1, 3)]
